@@ -127,7 +127,13 @@ pub fn families(prop: &str, tier: Tier) -> Vec<Cfg> {
             g.max_conns = 2;
             g.max_reqs = 1;
             g.dev = if q { 2 } else { 3 };
+            let mut g2 = g.clone();
+            g2.family = "C01-packet-larger-than-64KiB-16KiB-writes";
+            g2.io.max_write = 16_384;
+            g2.watchdog_calls = 400;
+            g2.dev = 1;
             v.push(g);
+            v.push(g2);
             v
         }
         "C09" => {
@@ -458,6 +464,25 @@ pub fn families(prop: &str, tier: Tier) -> Vec<Cfg> {
             b.max_reqs = if q { 10 } else { 11 };
             b.dev = 0;
             v.push(b);
+            // eight exchanges waiting for PUBCOMP (the broker answers PUBREL last), then more publishes
+            let mut e = Cfg::base("C06-eight-exchanges-waiting-for-pubcomp");
+            e.props = vec!["C06"];
+            e.must_reach = vec!["eight QoS 2 exchanges waiting for PUBCOMP", "publish refused because the send window is full"];
+            e.ops = vec![OpK::Pub2, OpK::Pub1, OpK::Poll];
+            e.io = IoMenu::benign();
+            e.broker.receive_max = vec![None, Some(9), Some(65535), Some(8)];
+            e.broker.reorder_window = 1;
+            e.broker.fifo = true;
+            e.broker.pubcomp_last = true;
+            e.tx = 512;
+            let mut opening = vec![OpK::Pub2; 8];
+            opening.extend(vec![OpK::Poll; 8]);
+            e.preludes = vec![opening];
+            e.max_ops = if q { 21 } else { 23 };
+            e.max_conns = 1;
+            e.max_reqs = 11;
+            e.dev = 0;
+            v.push(e);
             // windows between the small ones and the local limit
             let mut d = Cfg::base("C06-receive-maximum-4-to-8");
             d.must_reach = vec!["eight publishes unresolved at the broker", "publish refused because the send window is full"];
@@ -850,7 +875,12 @@ pub fn families(prop: &str, tier: Tier) -> Vec<Cfg> {
             g.max_conns = 1;
             g.max_reqs = 1;
             g.dev = if q { 2 } else { 3 };
-            vec![a, b, c, d, e, f, g]
+            let mut h = g.clone();
+            h.family = "C15-packet-larger-than-64KiB-16KiB-writes";
+            h.io.max_write = 16_384;
+            h.watchdog_calls = 400;
+            h.dev = 1;
+            vec![a, b, c, d, e, f, g, h]
         }
         "C16" => {
             let mut a = Cfg::base("C16-progress-after-partials-cancels-faults");
@@ -954,7 +984,17 @@ pub fn families(prop: &str, tier: Tier) -> Vec<Cfg> {
             h.max_conns = 2;
             h.max_reqs = 1;
             h.dev = if q { 2 } else { 3 };
-            vec![a, b, c, d, e, f, g, h]
+            // the same packet over a transport that never takes more than 16 KiB (resp. one MSS) per write
+            let mut i = h.clone();
+            i.family = "C16-packet-larger-than-64KiB-16KiB-writes";
+            i.io.max_write = 16_384;
+            i.watchdog_calls = 400;
+            i.dev = 1;
+            let mut j = i.clone();
+            j.family = "C16-packet-larger-than-64KiB-1460-byte-writes";
+            j.io.max_write = 1_460;
+            j.io.write_partial = false;
+            vec![a, b, c, d, e, f, g, h, i, j]
         }
         "C18" => {
             let mut a = Cfg::base("C18-status-after-every-step");
